@@ -41,7 +41,7 @@ theorem assoc_mul_small_correct (t : WTy) (ht : t.isSmall = true) (a b c : Int)
   have hab : 0 ≤ a * b := Int.mul_nonneg ha.1 hb.1
   cases t <;> simp [WTy.isSmall] at ht <;>
     simp [WTy.has, WTy.max, WTy.bits] at ha hb hc hprod <;>
-    simp [lowerAssoc, cAssocOf, WTy.isSmall, List.range, List.range.loop, ceval, env3, evalBin, promoteTy, uac,
+    simp [lowerAssoc, lowerAssocK, cAssocOf, WTy.isSmall, List.range, List.range.loop, ceval, env3, evalBin, promoteTy, uac,
       castTo, ctyOf, wrapU, CTy.bits] <;>
     (rw [Int.emod_eq_of_lt ha.1 (by omega), Int.emod_eq_of_lt hb.1 (by omega), Int.emod_eq_of_lt hc.1 (by omega),
       mod_mul_mod]) <;>
@@ -51,6 +51,48 @@ theorem assoc_mul_small_correct (t : WTy) (ht : t.isSmall = true) (a b c : Int)
 example : ∃ e, lowerAssoc .mul .u16 1 = some e ∧
     ceval (env3 ⟨.u16, 65535⟩ ⟨.u16, 65535⟩ ⟨.u16, 0⟩) e = some ⟨.u32, 0⟩ := by
   refine ⟨.bin .mul (.bin .mul (.cast .u32 (.hole 0)) (.hole 1)) (.hole 2), rfl, ?_⟩
-  simp [lowerAssoc, cAssocOf, WTy.isSmall, List.range, List.range.loop, ceval, env3, evalBin, promoteTy, uac, castTo, wrapU, CTy.bits]
+  simp [lowerAssoc, lowerAssocK, cAssocOf, WTy.isSmall, List.range, List.range.loop, ceval, env3, evalBin, promoteTy, uac, castTo, wrapU, CTy.bits]
+
+/-! ## Two leading constants at base.u64 (fixes/C04-assoc-leading-constants.patch) -/
+
+/-- the unrepaired form `(c0 + c1 + z)`: no conversion of the first operand -/
+def assocAddUnrepaired : CExpr := .bin .add (.bin .add (.hole 0) (.hole 1)) (.hole 2)
+
+/-- `4294967295 + 4294967295 + args.z` on base.u64 at z = 1: the two literals
+are `unsigned int`s, their sum wraps to 4294967294, and the C value is
+4294967295 — the Wuffs meaning is 8589934591.  No undefined behaviour: no
+sanitizer sees it. -/
+theorem assoc_leading_constants_unrepaired_wrong :
+    ceval (env3 ⟨.u32, 4294967295⟩ ⟨.u32, 4294967295⟩ ⟨.u64, 1⟩) assocAddUnrepaired = some ⟨.u64, 4294967295⟩ ∧
+    (4294967295 : Int) + 4294967295 + 1 = 8589934591 := by
+  constructor
+  · simp [assocAddUnrepaired, ceval, env3, evalBin, promoteTy, uac, convert, wrapU, CTy.bits]
+  · rfl
+
+/-- **assoc_add_leading_constants_correct**: after the repair, for all
+constants c0, c1 below 2^32 (C literals of type `unsigned int`) and every
+base.u64 value z with `c0 + c1 + z` in range, `(((uint64_t)(c0)) + c1 + z)` is
+the exact sum. -/
+theorem assoc_add_leading_constants_correct (c0 c1 z : Int) (h0 : 0 ≤ c0) (h0' : c0 < 2 ^ 32)
+    (h1 : 0 ≤ c1) (h1' : c1 < 2 ^ 32) (hz : WTy.u64.has z) (hsum : c0 + c1 + z ≤ WTy.u64.max) :
+    ∃ e, lowerAssocK .add .u64 1 true true = some e ∧
+      ceval (env3 ⟨.u32, c0⟩ ⟨.u32, c1⟩ ⟨.u64, z⟩) e = some ⟨.u64, c0 + c1 + z⟩ := by
+  simp [WTy.has, WTy.max, WTy.bits] at hz hsum
+  refine ⟨.bin .add (.bin .add (.cast .u64 (.hole 0)) (.hole 1)) (.hole 2), rfl, ?_⟩
+  simp [ceval, env3, evalBin, promoteTy, uac, castTo, convert, wrapU, CTy.bits]
+  omega
+
+/-- … and the exact product (even if `c0 * c1` alone needs more than 32 bits) -/
+theorem assoc_mul_leading_constants_correct (c0 c1 z : Int) (h0 : 0 ≤ c0) (h0' : c0 < 2 ^ 32)
+    (h1 : 0 ≤ c1) (h1' : c1 < 2 ^ 32) (hz : WTy.u64.has z) (hprod : c0 * c1 * z ≤ WTy.u64.max) :
+    ∃ e, lowerAssocK .mul .u64 1 true true = some e ∧
+      ceval (env3 ⟨.u32, c0⟩ ⟨.u32, c1⟩ ⟨.u64, z⟩) e = some ⟨.u64, c0 * c1 * z⟩ := by
+  simp [WTy.has, WTy.max, WTy.bits] at hz hprod
+  have hp0 : 0 ≤ c0 * c1 * z := Int.mul_nonneg (Int.mul_nonneg h0 h1) hz.1
+  refine ⟨.bin .mul (.bin .mul (.cast .u64 (.hole 0)) (.hole 1)) (.hole 2), rfl, ?_⟩
+  simp [ceval, env3, evalBin, promoteTy, uac, castTo, convert, wrapU, CTy.bits]
+  rw [Int.emod_eq_of_lt h0 (by omega), Int.emod_eq_of_lt h1 (by omega), Int.emod_eq_of_lt hz.1 (by omega),
+    mod_mul_mod]
+  exact Int.emod_eq_of_lt hp0 (by omega)
 
 end WuffsVerif.Props.C04
